@@ -84,6 +84,13 @@ class Score(Case):
                 sim.append(s)
         if self.variant == 'perfect':
             sim = list(obs)
+        if self.variant == 'outdomain':
+            # one simulated value outside the transform's domain (log of a negative number): the transform turns it into NaN, and with
+            # excludenull that pair is incomplete like any other
+            v = SR(z3.Real('s_out'))
+            nu = (P['nu'] if 'nu' in P else C['nu'])
+            assume(z3.And(v.e >= -50, v.e + nu.e <= -q(0.001)))
+            sim[0] = v
         if self.pin:
             for i, v in enumerate(self.pin.get('obs', [])):
                 if v is not None:
@@ -310,6 +317,8 @@ def cases(tier):
                 Score('corr', tr, 3, excludenull=True, nanpos=('sim', 1)),
                 Score('kge', tr, 3, excludenull=True, nanpos=('sim', 0)), Score('nse', tr, 3, excludenull=False, nanpos=('sim', 0)),
                 Score('nse', tr, 2, variant='perfect'), Score('bias', tr, 2, variant='perfect'), Score('kge', tr, 2, variant='perfect')]
+        if tr in ('Log', 'BoxCox2'):
+            out += [Score(fn, tr, 3, excludenull=True, variant='outdomain') for fn in ('bias', 'nse', 'kge', 'corr')]
     out.append(Binary())
     return out
 
